@@ -3,6 +3,7 @@ import Driver.Murmur
 import QlibcModel.ListTbl.Model
 import QlibcModel.ListTbl.Fault
 import QlibcModel.ListTbl.Args
+import QlibcModel.ListTbl.Alias
 open Qlibc Qlibc.ListTbl Qlibc.MapFault
 
 namespace Driver.ListTbl
@@ -194,6 +195,19 @@ def step (st0 : St) (ws : List String) : St × String :=
         | .error f => fin { st with t := t2, ts := false } (faultStr f)
       | .error f => fin st (faultStr f)
     | _ => fin st "bad-op"
+  | ["putalias", k, h, mode, off, ln] => match arg k, hash32 h, off.toNat?, ln.toNat? with
+    | .ok k, some h, some off, some ln =>
+      match aliasValue t k h (mode == "1" || mode == "3") off ln with
+      | none => fin st "skip"
+      | some v => putRes (putF plan t k h v)
+    | _, _, _, _ => fin st "bad-op"
+  | ["putkeyalias", k, h, off, d] => match arg k, hash32 h, off.toNat?, arg d with
+    | .ok k, some h, some off, .ok d =>
+      match aliasKey t k h off with
+      | none => fin st "skip"
+      | some k' => putRes (putF plan t k' (Driver.Murmur.murmur3_32 k') d)
+    | _, _, _, _ => fin st "bad-op"
+  | ["debug"] => fin st s!"debug 1 {hx (debugText t)}"
   | ["inv"] =>
     let tok (l : List (Bool × Err)) : String := String.join (l.map fun (b, e) => s!" {if b then 1 else 0}:{e.name}")
     match runCalls invBattery t with
@@ -209,7 +223,7 @@ def step (st0 : St) (ws : List String) : St × String :=
           | .ok l => s!"{l.length}:0"
           | .error f => faultStr f
         fin { st with t := t2 } ("inv" ++ tok r1 ++ " /" ++ tok r2 ++ env ++ " sz=99 gmnull=" ++ gm)
-  | ["lock"] => fin st s!"locked size {size t}"
+  | ["lock"] => fin st (s!"locked size {size t} nested=ENOENT" ++ (if st.ts then " held=1 after=0" else " nolock"))
   | ["end"] => fin { t := init (mkOpts "0" "0" "0" "0"), cur := Cursor.zero, live := true, fresh := false } "end live=0 bad=0"
   | _ => fin st "bad-op"
 
